@@ -205,6 +205,10 @@ CATALOGUE = [
     ('C02-d', 'C02', W,
      "            if not process.kill_failed:\n                raise gen.Return(False)\n",
      "            if True:\n                raise gen.Return(False)\n"),
+    # (socket section edited) the watchers of a changed socket are not deleted
+    ('C12-d', 'C12', A,
+     "        deleted_wn = (current_wn - new_wn) | wn_with_changed_socket\n",
+     "        deleted_wn = current_wn - new_wn - wn_with_changed_socket\n"),
 ]
 
 
